@@ -45,6 +45,9 @@ func checkC04(p *Prog, r *Report) {
 	didQueryRules(p, r, m, "C04", false, true, false)
 	// the sequence history survives a genesis export/import: every entry (tombstones included) is imported, unchanged, under its key
 	didGenesisRules(p, r, m, "C04")
+	checkNoLanguageDowngrade(p, r, "C04")
+	checkGenesisJSONForms(p, r, "C04", []string{"x/did"})
+	checkModuleExtensionInterfaces(p, r, "C04", []string{"x/did"})
 	checkInitGenesisCallers(p, r, "C04", "x/did")
 	wireKeyOwnership(p, r, BuildWire(p), "C04", "did", []string{"x/did/keeper.NewKeeper"}, "DID documents and sequences")
 }
@@ -65,6 +68,9 @@ func checkC05(p *Prog, r *Report) {
 	})
 	didQueryRules(p, r, m, "C05", true, false, true)
 	didGenesisRules(p, r, m, "C05")
+	checkNoLanguageDowngrade(p, r, "C05")
+	checkGenesisJSONForms(p, r, "C05", []string{"x/did"})
+	checkModuleExtensionInterfaces(p, r, "C05", []string{"x/did"})
 	checkInitGenesisCallers(p, r, "C05", "x/did")
 	wireKeyOwnership(p, r, BuildWire(p), "C05", "did", []string{"x/did/keeper.NewKeeper"}, "DID documents and tombstones")
 }
@@ -85,6 +91,8 @@ func checkC11(p *Prog, r *Report) {
 	didQueryRules(p, r, m, "C11", false, false, true)
 	// genesis import keeps the binding: every entry is stored whole under the very key it was exported under
 	didGenesisRules(p, r, m, "C11")
+	checkNoLanguageDowngrade(p, r, "C11")
+	checkModuleExtensionInterfaces(p, r, "C11", []string{"x/did"})
 	checkInitGenesisCallers(p, r, "C11", "x/did")
 	wireKeyOwnership(p, r, BuildWire(p), "C11", "did", []string{"x/did/keeper.NewKeeper"}, "DID documents")
 	r.Note("C11-D3: GenesisState.Validate checks key and document validity separately and does not compare the key with Document.Id (genesis files are trusted input; not a violation of the property as stated)")
